@@ -1,5 +1,6 @@
 import Goat.Model.JsonDecoder
 import GoatProofs.Lemmas.C07NoPanic
+import GoatProofs.Lemmas.C07NumericDate
 /-
 C07, part C: the shared decoders/encoders never panic, and the errors they produce can always be
 rendered.  Quantifiers: every decoded JSON object `raw`, every parameter name, every getter, every
@@ -145,10 +146,8 @@ theorem getTime_noPanic_of (d : Dec) (n : String)
     · rename_i p hp; exact absurd hp (this p)
   · nopanic
 
-/-- FULL STATEMENT (kept): `∀ d n, NoPanic (d.getTime n)`.  Proved below is the part that does not
-    go through math/big's NaN: every value that is not a JSON number, and every JSON number on
-    which the NumericDate model does not answer `panic`.  That the NumericDate model never answers
-    `panic` (its `scan`/`pow5` never multiply 0 by ∞) is not proved here. -/
+/-- the part of GetTime that does not go through NumericDate at all (superseded by
+    `getTime_noPanic` below, kept as the cheap case) -/
 theorem getTime_noPanic_partial (d : Dec) (n : String)
     (h : ∀ s, Wire.lookup n d.raw ≠ some (.num s)) : NoPanic (d.getTime n) :=
   getTime_noPanic_of d n (fun s hs => absurd hs (h s))
@@ -156,7 +155,7 @@ theorem getTime_noPanic_partial (d : Dec) (n : String)
 /-- **no_panic_json_decoder**: for every decoded JSON object, every key and every getter other than
     GetTime, the getter returns (a value or a recorded error) and never panics; and GetTime does
     under the stated NumericDate hypothesis. -/
-theorem no_panic_json_decoder (pkg : String) (raw : List (String × Wire)) (name : String) (g : Getter)
+theorem no_panic_json_decoder_of (pkg : String) (raw : List (String × Wire)) (name : String) (g : Getter)
     (hnd : ∀ s, (Model.NumericDate.decode s).NoPanic) :
     NoPanic (g.run (Dec.new pkg raw) name) := by
   have hw := Dec.new_wf pkg raw
@@ -171,7 +170,18 @@ theorem no_panic_json_decoder (pkg : String) (raw : List (String × Wire)) (name
   case mustInt64 => exact NoPanic.bind (mustInt64_noPanic _ _) (fun _ => NoPanic.pure _)
   all_goals exact NoPanic.pure _
 
-/-- the same for every getter except GetTime, with NO hypothesis -/
+/-- GetTime never panics: NumericDate.UnmarshalJSON never reaches math/big's NaN
+    (GoatProofs/Lemmas/C07NumericDate.lean) -/
+theorem getTime_noPanic (d : Dec) (n : String) : NoPanic (d.getTime n) :=
+  getTime_noPanic_of d n (fun s _ => ND.decode_noPanic s)
+
+/-- **no_panic_json_decoder** (full statement): for every decoded JSON object, every key and every
+    getter, the getter returns (a value or a recorded error) and never panics -/
+theorem no_panic_json_decoder (pkg : String) (raw : List (String × Wire)) (name : String) (g : Getter) :
+    NoPanic (g.run (Dec.new pkg raw) name) :=
+  no_panic_json_decoder_of pkg raw name g ND.decode_noPanic
+
+/-- the same for every getter except GetTime, without going through NumericDate -/
 theorem no_panic_json_decoder_partial (pkg : String) (raw : List (String × Wire)) (name : String)
     (g : Getter) (hg : g ≠ .getTime) : NoPanic (g.run (Dec.new pkg raw) name) := by
   have hw := Dec.new_wf pkg raw
